@@ -474,7 +474,8 @@ func (r *Runner) api(s Stim) (ok bool) {
 	case "stop":
 		c.openGate(n)
 		n.fsm.ReleaseAll()
-		c.net.failAll(n)
+		// (the node's own requests that are still in flight stay in flight: their responses arrive
+		// at a stopped node later, in the automatic phase that ends every API scenario)
 		n.r.Stop()
 		c.mu.Lock()
 		n.running = false
@@ -576,6 +577,12 @@ func (r *Runner) heal() {
 	c.mu.Unlock()
 	c.net.SetAuto(true)
 	c.SetControlled(false)
+	for _, id := range ids {
+		// a node on which Stop has returned (and nothing was started since) reports Shutdown
+		if n := c.node(id); n.created && !n.running && !n.ghost.Load() && n.r != nil {
+			c.rec.Emit("stopcheck", Ev{"node": id, "inc": n.inc, "state": int(n.r.Status().State)})
+		}
+	}
 	for _, id := range sc.HealKeepDown {
 		// "the others stay down for good": a member that is to stay down and still runs goes down now
 		if n := c.node(id); n != nil && n.running {
